@@ -207,8 +207,16 @@ def run(ctx):
         finish(ctx, LEVEL, dict(traces_validated_against_impl=0, samples=t.get("samples") or [], calls=t["calls"]))
 
     # ---- (ii) forced schedules on the real code (before anything CPU-heavy runs)
-    lost = run_forced(ctx, binp, "lost", 300)
-    dl = run_forced(ctx, binp, "deadlock", 300)
+    def forced_with_retries(scenario):
+        # a schedule that could not be established (the machine was too busy for the hooks' rendezvous) says nothing: try again
+        for attempt in range(4):
+            d = run_forced(ctx, binp, scenario, 300 + 200 * attempt)
+            if d.get("violation") or d.get("established"):
+                return d
+            log("[c17] forced %s not established (%s), attempt %d" % (scenario, d.get("why_not_established"), attempt + 1))
+        return d
+    lost = forced_with_retries("lost")
+    dl = forced_with_retries("deadlock")
     forced = {}
     for d in (lost, dl):
         forced[d["scenario"]] = report_forced(ctx, d)
